@@ -91,6 +91,7 @@ class TxLock(SimRLock):
         self.parked = {}          # task -> saved depth
         self.windows = 0.0        # probability of opening a window
         self.dirty = set()        # tasks whose current tx has written
+        self.commit_count = None  # callable: number of commits so far
 
     def _free_for(self, me):
         if self.owner is not None:
@@ -125,6 +126,9 @@ class TxLock(SimRLock):
             self.dirty.discard(me)
         super(TxLock, self).release()
 
+    def __enter__(self):
+        return self.acquire()
+
     def _wake(self):
         sim = _sim()
         if sim:
@@ -153,6 +157,7 @@ class TxLock(SimRLock):
         self.depth = 0
         self._wake()
         sim.count('txwin_opened')
+        c0 = self.commit_count() if self.commit_count else 0
         try:
             sim.yield_point('txwin', what, force=True)
             while self.owner is not None:
@@ -162,6 +167,9 @@ class TxLock(SimRLock):
             self.parked.pop(me, None)
         self.owner = me
         self.depth = depth
+        if self.commit_count and self.commit_count() > c0:
+            # another transaction committed while this one was parked
+            sim.count('txwin_effective')
         # woken waiters of our own node stay blocked through _free_for()
 
 
